@@ -106,6 +106,16 @@ def systematic(tier):
     for dec in ('ber', 'cer', 'der'):
         for spec in (None, {'k': 'INTEGER', 'tags': []}, {'k': 'INTEGER', 'tags': [], 'con': {'range': [0, 10]}}):
             out.append({'check': ID, 'exhaustive': True, 'long_ints': True, 'decoder': dec, 'spec': spec, 'first': 0})
+    # length fields at the sizes where an integer type, an allocation or a read size changes its mind
+    # (2**31, 2**32, sys.maxsize, 2**64), behind every kind of identifier, under guides that take the element
+    # whole (ANY), by content (OCTET STRING) or by components
+    for dec in ('ber', 'cer', 'der'):
+        for spec in (None, {'k': 'ANY', 'tags': []}, {'k': 'OCTETSTRING', 'tags': []},
+                     {'k': 'SEQ', 'tags': [], 'fields': [{'n': 'a', 'd': {'k': 'OID', 'tags': []}, 'opt': 'R'},
+                                                         {'n': 'b', 'd': {'k': 'ANY', 'tags': []}, 'opt': 'R'}]},
+                     {'k': 'SEQOF', 'tags': [], 'of': {'k': 'ANY', 'tags': []}},
+                     {'k': 'ANY', 'tags': [['E', 'C', 0]]}):
+            out.append({'check': ID, 'exhaustive': True, 'boundary_lengths': True, 'decoder': dec, 'spec': spec, 'first': 0})
     # constructed strings: every list of at most two fragments (a fragment = right/wrong/nested identifier with
     # every content of length <= 2 over a small alphabet, or an empty nested constructed fragment), in the
     # definite and the indefinite form, for three string types, with and without the type as guide
@@ -342,7 +352,20 @@ def _exhaustive(plan):
     dec = U.decoder_module(plan['decoder'])
     spec = U.build_schema(plan['spec']) if plan['spec'] is not None else None
     first = plan['first']
-    if plan.get('long_ints'):
+    if plan.get('boundary_lengths'):
+        strings = []
+        lens = set()
+        for base in (2 ** 15, 2 ** 16, 2 ** 31, 2 ** 32, 2 ** 63, 2 ** 64):
+            for k in range(-18, 19):
+                lens.add(base + k)
+        for n in sorted(lens):
+            ln = bytes.fromhex(corrupt._enc_len(n))
+            for ident in (b'\x04', b'\x24', b'\x30', b'\x31', b'\xa0', b'\x13', b'\x03', b'\x06', b'\x1f\x21'):
+                strings.append(ident + ln + b'\x05\x00' * 4)
+                # the same element as the second component of a record / a member of a collection
+                strings.append(b'\x30\x80\x06\x01\x2a' + ident + ln + b'\x05\x00' * 4)
+                strings.append(b'\xa0\x80' + ident + ln + b'\x05\x00')
+    elif plan.get('long_ints'):
         strings = []
         for tag_ in (0x02, 0x0a):
             for n in (300, 1785, 1790, 2000, 5000):
